@@ -118,7 +118,9 @@ func parseCPUList(s string) ([]int, error) {
 	}
 	var out []int
 	for part := range strings.SplitSeq(s, ",") {
-		part = strings.TrimSpace(part)
+		// the kernel's cpulist syntax only knows the ASCII blanks; TrimSpace would also strip
+		// Unicode white space such as U+00A0
+		part = strings.Trim(part, " \t\n\v\f\r")
 		if part == "" {
 			continue
 		}
